@@ -20,7 +20,9 @@ Files == <<
   [apps |-> <<P(4, "acct"), P(1, "auth")>>, avps |-> <<A(4, 5003, "X-D", 0, "Unsigned32"), A(1, 5002, "X-B", 10, "Float32")>>, cmds |-> <<C(1, 602, "XC")>>],
   \* a corrected vendor dictionary: the vendor-specific X-B of base redefined (same application, code, name and
   \* vendor, another type), and the same code under a second vendor
-  [apps |-> <<P(0, "")>>, avps |-> <<A(0, 5002, "X-B", 10, "Unsigned64"), A(0, 5002, "X-E", 20, "Integer32")>>, cmds |-> <<>>] >>
+  [apps |-> <<P(0, "")>>, avps |-> <<A(0, 5002, "X-B", 10, "Unsigned64"), A(0, 5002, "X-E", 20, "Integer32")>>, cmds |-> <<>>],
+  \* application 1 alone (its child 4 may not be loaded: S6a -> 4 -> 1 must still reach it)
+  [apps |-> <<P(1, "auth")>>, avps |-> <<A(1, 5004, "X-D", 0, "Unsigned32")>>, cmds |-> <<>>] >>
 Defs(ld) == FlattenSeq([i \in 1..Len(ld) |-> Files[ld[i]].avps])
 Cmds(ld) == FlattenSeq([i \in 1..Len(ld) |-> Files[ld[i]].cmds])
 Apps(ld) == FlattenSeq([i \in 1..Len(ld) |-> Files[ld[i]].apps])
